@@ -614,8 +614,15 @@ where
             mac::Response::UplinkPrepared => {
                 let (tx_config, _fcnt_up) =
                     mac.certification_setup_send::<G, N>(rng, radio_buffer)?;
-                radio.tx(tx_config, radio_buffer.as_ref_for_read()).await.map_err(Error::Radio)?;
-                Ok(Some(mac.rx2_complete()))
+                let tx_result = radio.tx(tx_config, radio_buffer.as_ref_for_read()).await;
+                // The answer has been handed to the radio under the current uplink counter:
+                // the counter is spent whether or not the radio completed the transmission.
+                let response = mac.rx2_complete();
+                if let mac::Response::SessionExpired = response {
+                    return Ok(Some(response));
+                }
+                tx_result.map_err(Error::Radio)?;
+                Ok(Some(response))
             }
             #[cfg(feature = "multicast")]
             mac::Response::Multicast(mut response) => {
